@@ -205,6 +205,7 @@ def run(tier):
                 ck.add_distinct(core.h(sid, [(s[0], sorted(s[2].items())) for s in steps]))
             if ok and len(ck.samples) < 2:
                 ck.sample({'api': api, 'steps': [{'doc': s[0], 'opts': s[2]} for s in steps[:8]]})
+    cached_grammar_part(ck, binary, stats)
     ck.rule = ('sequences of 6-12 (quick) / 8-30 (thorough) operations on one parser object drawn from a pool of valid / invalid / malformed documents that share element, ID and '
                'entity names (DTD, external subset, external entity, two schemas, XML 1.1, UTF-16, namespaces) plus generated documents and mutants; operations include handler '
                'exceptions at the k-th callback, abandoned progressive parses (with/without parseReset), feature flips, scanner switches and adoptDocument; a sequence is non-trivial '
@@ -212,8 +213,111 @@ def run(tier):
     ck.cov['operation_kinds'] = {'/'.join(map(str, k)): v for k, v in sorted(kinds.items(), key=lambda kv: -kv[1])[:60]}
     ck.cov['stats'] = dict(stats)
     ck.assumptions = ['the fresh-parser run of the same build is the reference', 'continue-after-fatal-error is not used (documented as undetermined)',
-                      'grammar caching features are off in this workload (same-key-same-grammar is by design); cached-grammar transparency is exercised by C16']
+                      'in the history part grammar caching is off; the cached-grammar part compares preloaded (loadGrammar) and cached-from-parse grammars with the grammar parsed inline, on documents without internal subset (documented requirement of DTD caching), ignoring xsi location hints and error columns']
     return ck.finish()
+
+
+XSI = 'http://www.w3.org/2001/XMLSchema-instance'
+
+
+def content_sig(st):
+    """what a cached grammar must not change: events (without xsi:* location hints), error codes in order, status"""
+    ev = []
+    for e in pc.project(st.events, ns=True, keep_spec=True):
+        if e[0] == 'SE':
+            attrs = tuple(a for a in e[4] if a[0] not in ('xsi:schemaLocation', 'xsi:noNamespaceSchemaLocation'))
+            ev.append(('SE', e[1], e[2], e[3], attrs))
+        else:
+            ev.append(e)
+    return (tuple(ev), tuple((e[0], e[1], e[2]) for e in st.errs), st.status)
+
+
+def cached_grammar_part(ck, binary, stats):
+    """preloaded / cached grammars must give the same verdicts, defaults and content as the grammar parsed inline;
+    a locked pool's grammar enumeration must not change"""
+    loc1 = ' xmlns:xsi="%s" xsi:noNamespaceSchemaLocation="s1.xsd"' % XSI
+    loc2 = ' xmlns:xsi="%s" xsi:schemaLocation="urn:t2 s2.xsd"' % XSI
+    inst1 = [('<r%s><a id="i1">1</a><a>2</a></r>', 'valid'), ('<r%s><a>1</a><a>01</a></r>', 'dup-unique'), ('<r%s><a>x</a><b/></r>', 'invalid'), ('<r%s><a x="own">7</a></r>', 'default-overridden')]
+    inst2 = [('<r xmlns="urn:t2"%s><a> t </a></r>', 'valid'), ('<r xmlns="urn:t2"%s k="maybe"><a/><a/><a/><a/></r>', 'invalid'), ('<r xmlns="urn:t2"%s/>', 'empty-default-attr')]
+    dtddocs = [('<!DOCTYPE r SYSTEM "d.dtd"><r><a id="i1">&e;</a><b/></r>', 'valid'), ('<!DOCTYPE r SYSTEM "d.dtd"><r><c/></r>', 'invalid'), ('<!DOCTYPE r SYSTEM "d.dtd"><r><a/><a x="y"/></r>', 'defaults')]
+    ents = dict(ENTS)
+    cases = []
+    plan = []       # (cached case id, step index, inline case id, label)
+    n = 0
+    for api in ('sax2', 'dom', 'sax1', 'domls'):
+        base = dict(api=api, pool=1, ns=1, resolver='x', resmiss='empty')
+        # B1: preloaded schema / B2: cached from an earlier parse
+        for mode in ('preload', 'cachefromparse'):
+            for (insts, loc, xsd) in ((inst1, loc1, 'file:///xv/s1.xsd'), (inst2, loc2, 'file:///xv/s2.xsd')):
+                c = core.Case('G%d' % n, 'parse', base, ents=ENTS)
+                n += 1
+                if mode == 'preload':
+                    c.doc(ents[xsd], op='loadgrammar', gtype='xsd', tocache=1, sysid=xsd, schema=1)
+                else:
+                    c.doc((insts[0][0] % loc).encode(), schema=1, val='always', cache=1)
+                first = len(c.steps)
+                for k, (t, label) in enumerate(insts):
+                    c.doc((t % '').encode(), schema=1, val='always', usecached=1)
+                    f = core.Case('%s.i%d' % (c.id, k), 'parse', dict(api=api, ns=1, resolver='x', resmiss='empty'), ents=ENTS).doc((t % loc).encode(), schema=1, val='always')
+                    cases.append(f)
+                    plan.append((c.id, first + k, f.id, '%s:%s:%s' % (mode, 'nons' if xsd.endswith('s1.xsd') else 'ns', label)))
+                cases.append(c)
+        # B3: preloaded DTD (documents without internal subset, as the documentation requires)
+        c = core.Case('G%d' % n, 'parse', base, ents=ENTS)
+        n += 1
+        c.doc(ents['file:///xv/d.dtd'], op='loadgrammar', gtype='dtd', tocache=1, sysid='file:///xv/d.dtd')
+        for k, (t, label) in enumerate(dtddocs):
+            c.doc(t.encode(), val='always', usecached=1)
+            f = core.Case('%s.i%d' % (c.id, k), 'parse', dict(api=api, ns=1, resolver='x', resmiss='empty'), ents=ENTS).doc(t.encode(), val='always')
+            cases.append(f)
+            plan.append((c.id, 1 + k, f.id, 'preload:dtd:%s' % label))
+        cases.append(c)
+        # B4: a locked pool is never modified
+        c = core.Case('L%d' % n, 'parse', base, ents=ENTS, meta={'lock': 1})
+        n += 1
+        c.doc(ents['file:///xv/s1.xsd'], op='loadgrammar', gtype='xsd', tocache=1, sysid='file:///xv/s1.xsd', schema=1)
+        c.doc(b'', op='lockpool')
+        c.doc(b'', op='dumppool')
+        for t, label in inst2 + inst1:
+            c.doc((t % (loc2 if 'urn:t2' in t else loc1)).encode(), schema=1, val='always', cache=1, usecached=1)
+        c.doc(dtddocs[0][0].encode(), val='always', cache=1, usecached=1)
+        c.doc(b'', op='dumppool')
+        c.doc(b'', op='unlockpool')
+        cases.append(c)
+    recs = core.run_cases(binary, cases, tag='c15g')
+    parsed = {}
+    for c in cases:
+        r_ = recs.get(c.id)
+        if r_ is None or not r_.complete or r_.crash or r_.hang:
+            if r_ is not None:
+                ck.crash_violation(r_, c, 'C15:')
+            continue
+        parsed[c.id] = pc.parse_record(r_)
+    for cid, k, fid, label in plan:
+        if cid not in parsed or fid not in parsed or k >= len(parsed[cid]):
+            continue
+        a, b = content_sig(parsed[cid][k]), content_sig(parsed[fid][0])
+        ck.evaluations += 1
+        stats['cached_vs_inline_compared'] += 1
+        if a != b:
+            what = 'events' if a[0] != b[0] else 'errors' if a[1] != b[1] else 'status'
+            d = pc.first_diff(list(b[0]), list(a[0])) if what == 'events' else (b[1], a[1])
+            ck.violation('C15:cached-grammar-differs:%s:%s' % (label.rsplit(':', 1)[0], what), 'validating with a preloaded/cached grammar differs from parsing the grammar inline (%s): %s' % (label, repr(d)[:300]),
+                         {'case': next(c for c in cases if c.id == cid).to_json(), 'step': k, 'inline_case': next(c for c in cases if c.id == fid).to_json()})
+        else:
+            ck.add_distinct(core.h('cached', cid, k))
+    for c in cases:
+        if not c.meta.get('lock') or c.id not in parsed:
+            continue
+        dumps = [[e for e in st.events if e[0] in ('GP', 'GPN')] for st in parsed[c.id] if any(e[0] == 'GPN' for e in st.events)]
+        stats['locked_pool_sequences'] += 1
+        ck.evaluations += 1
+        if len(dumps) != 2:
+            ck.inconclusive.append('locked-pool case %s produced %d pool dumps' % (c.id, len(dumps)))
+        elif dumps[0] != dumps[1]:
+            ck.violation('C15:locked-pool-modified', 'the grammar enumeration of a locked pool changed: %r -> %r' % (dumps[0], dumps[1]), {'case': c.to_json()})
+        else:
+            ck.add_distinct(core.h('locked', c.id))
 
 
 def replay(j):
